@@ -164,6 +164,11 @@ func CompleteConfig(config *Config) error {
 		"oneOf":       {SkipRuntime: true},
 	}
 
+	if config.Directives == nil {
+		// `directives:` with nothing under it decodes to a nil map
+		config.Directives = map[string]DirectiveConfig{}
+	}
+
 	for key, value := range defaultDirectives {
 		if _, defined := config.Directives[key]; !defined {
 			config.Directives[key] = value
